@@ -71,7 +71,7 @@ Definition pending_gen_sym (p : pending) : string :=
 Definition kinds_ok : bool :=
   forallb (fun o => match assoc_find (bin_name o) ref_infix_kind with Some k => String.eqb k (bin_kind o) | None => false end) all_bop &&
   forallb (fun u => match assoc_find (pre_name u) ref_prefix_kind with Some k => String.eqb k (pre_kind u) | None => false end) all_uop &&
-  forallb (fun p => match assoc_find (post_name p) ref_postfix_kind with Some k => String.eqb k (post_kind p) || String.eqb (post_kind p) "LOCATION_EXPR" | None => false end) all_pop &&
+  forallb (fun p => match assoc_find (post_name p) ref_postfix_kind with Some k => String.eqb k (post_kind p) | None => false end) all_pop &&
   forallb (fun o => Bool.eqb (bin_wraps_left_not o) (String.eqb (bin_name o) "T_KW_IMPLY")) all_bop &&
   String.eqb ite_kind "INLINE_IF".
 
